@@ -423,13 +423,32 @@ def reaches_any(start, targets) -> bool:
     return False
 
 
-def run_program(W, prog, sink: dict, strays: list):
+def _state(states: dict, obj, reg, nreg) -> str:
+    """observed states are kept once (hash -> state); transitions refer to them"""
+    st = {"obj": obj, "reg": reg, "nreg": nreg}
+    h = hashlib.sha1(json.dumps(st, sort_keys=True).encode()).hexdigest()
+    states.setdefault(h, st)
+    return h
+
+
+def expand(sink: dict, states: dict) -> None:
+    """give every transition its states back (shared objects, nothing is copied)"""
+    for ln in sink.values():
+        if "pre" in ln:
+            continue
+        a, b = states[ln["pre_h"]], states[ln["post_h"]]
+        ln.update(pre=a["obj"], post=b["obj"], regpre=a["reg"], regpost=b["reg"], nregpre=a["nreg"], nregpost=b["nreg"])
+
+
+def run_program(W, prog, sink: dict, strays: list, states: dict | None = None):
     """execute; add distinct transitions to sink (hash -> line)"""
+    own = states is None
+    states = {} if own else states
     from pyoak.legacy.node import AwareASTNode
     R = Runner(W)
     clean = True
     trail: list = []        # hashes of the transitions this program went through so far
-    pre = R.alpha()
+    pre_h = _state(states, R.alpha(), {}, 0)
     CREATING = ("create", "replace_prop", "replace_kids", "duplicate", "tvisit", "texec")
     for step, op in enumerate(prog):
         refs = [op["a"], op["b"]] + list(op["kids"] or [])
@@ -451,8 +470,6 @@ def run_program(W, prog, sink: dict, strays: list):
         # a handle whose node already has an earlier handle (a transformation returned its argument) is spelled
         # with the earlier one, so that names in operations and states agree
         op = dict(op, a=R.canon(op["a"]), b=R.canon(op["b"]), kids=[R.canon(k) for k in (op["kids"] or [])])
-        nreg0 = len(AwareASTNode._nodes)
-        regpre = R.registry()
         d = R.probe_digest(op)
         outcome, ret = R.apply(op)
         if outcome.startswith("stray:"):
@@ -470,9 +487,8 @@ def run_program(W, prog, sink: dict, strays: list):
             post = R.alpha()
         except RecursionError:
             break
-        line = {"op": op, "outcome": outcome, "pre": pre, "post": post, "clean": clean,
-                "nregpre": nreg0, "nregpost": len(AwareASTNode._nodes),
-                "regpre": regpre, "regpost": R.registry(), "nm": f"h{len(R.nodes)}", "d": d}
+        post_h = _state(states, post, R.registry(), len(AwareASTNode._nodes))
+        line = {"op": op, "outcome": outcome, "pre_h": pre_h, "post_h": post_h, "clean": clean, "nm": f"h{len(R.nodes)}", "d": d}
         hsh = hashlib.sha1(json.dumps(line, sort_keys=True).encode()).hexdigest()
         if hsh not in sink:
             line["witness"] = prog[: step + 1]
@@ -483,7 +499,9 @@ def run_program(W, prog, sink: dict, strays: list):
         trail.append(hsh)
         if outcome != "ok" or R.double_placement_or_cycle():
             clean = False
-        pre = post
+        pre_h = post_h
+    if own:
+        expand(sink, states)
     # detach everything so that the next program starts from an empty registry
     for o in R.nodes:
         if o is not None:
@@ -526,12 +544,13 @@ def _exec(chunk, arg):
     W = world()
     sink: dict = {}
     strays: list = []
+    states: dict = {}
     n = 0
     for raw in chunk:
         prog = tlc.decode(raw)["prog"] if isinstance(raw, str) else raw
-        run_program(W, prog, sink, strays)
+        run_program(W, prog, sink, strays, states)
         n += len(prog)
-    return sink, strays, n
+    return sink, strays, n, states
 
 
 def random_program(rng, length, classes):
@@ -597,13 +616,14 @@ def _exec_random(chunk, arg):
     W = world()
     sink: dict = {}
     strays: list = []
+    states: dict = {}
     n = 0
     for seed in chunk:
         rng = random.Random(seed)
         prog = random_program(rng, arg["length"], ["LLeaf", "LSub", "LUnary", "LOpt", "LMany", "LList"])
-        run_program(W, prog, sink, strays)
+        run_program(W, prog, sink, strays, states)
         n += len(prog)
-    return sink, strays, n
+    return sink, strays, n, states
 
 
 def gen_scripts(chk, maxlen, maxhandles, classes, maxkids, name, ops=None, modes=("plain", "detached", "unique"),
@@ -619,7 +639,7 @@ def gen_scripts(chk, maxlen, maxhandles, classes, maxkids, name, ops=None, modes
     return r.json_raw
 
 
-STRIP = ("witness", "alts", "hsh")
+STRIP = ("witness", "alts", "hsh", "pre_h", "post_h")
 
 
 def trace_shards(chk, module, lines, name):
@@ -713,11 +733,14 @@ def mc_design(chk, pid, name, maxops, maxhandles, classes, maxkids, modes=("plai
 
 
 def collect(chk, results):
-    sink, strays = {}, []
-    for s, st, n in results:
+    sink, strays, states = {}, [], {}
+    for s, st, n, sts in results:
         merge_sink(sink, s)
         strays.extend(st)
+        for h, x in sts.items():
+            states.setdefault(h, x)
         chk.evaluations += n
+    expand(sink, states)
     return sink, strays
 
 
@@ -799,15 +822,29 @@ def run(chk: core.Check, pid: str, classify):
                             trules=("bump", "fresh", "drop", "boom"))
     raws += [json.dumps(json.dumps({"prog": p})) for p in FIXED_PROGRAMS]
     chk.replayed += len(raws)
-    sink, strays = collect(chk, core.parallel(_exec, raws, {}, chunk=400))
+    _tick(chk, "model checked, programs exported")
+    # random programs first: forking workers from a parent that already holds the big table of transitions is slow
     rng = random.Random(chk.seed + 61)
     seeds = [rng.randrange(1 << 30) for _ in range(6000 if quick else 60000)]
-    s2, st2 = collect(chk, core.parallel(_exec_random, seeds, {"length": 12}, chunk=100))
+    sink, strays = collect(chk, core.parallel(_exec_random, seeds, {"length": 12}, chunk=max(100, len(seeds) // 64)))
+    _tick(chk, "random programs executed")
+    # programs with a common prefix next to each other and large chunks: a worker then sees most repetitions of a
+    # transition itself and returns it once
+    raws.sort()
+    s2, st2 = collect(chk, core.parallel(_exec, raws, {}, chunk=max(400, len(raws) // 64)))
     merge_sink(sink, s2)
+    del s2
     strays += st2
     for s in strays[:50]:
         chk.add(core.Violation("stray-exception", {"m": "legacy-program", "prog": s["prog"]}, s["error"]))
+    _tick(chk, "programs executed")
     judge(chk, pid, classify, list(sink.values()), len(raws), len(seeds))
+    _tick(chk, "judged")
+
+
+def _tick(chk, what):
+    import time
+    chk.notes.setdefault("phases_s", []).append([what, round(time.time() - chk.t0, 1)])
 
 
 def judge(chk, pid, classify, alllines, nprogs=0, nrandom=0, name=""):
@@ -833,7 +870,7 @@ def judge(chk, pid, classify, alllines, nprogs=0, nrandom=0, name=""):
     chk.evaluations += len(lines) + len(mlines)
     for ln in lines:
         if len(ln["witness"]) >= 2:
-            chk.nontrivial.add(hash(json.dumps(ln["op"], sort_keys=True) + ln["outcome"] + json.dumps(ln["pre"], sort_keys=True)))
+            chk.nontrivial.add(ln["hsh"])
     if lines:
         chk.sample({"witness_program": lines[len(lines) // 2]["witness"], "outcome": lines[len(lines) // 2]["outcome"]})
     consequences = 0
